@@ -19,6 +19,20 @@ CHECKS = {
              '(C01) nor exactness of the conflict *set* beyond per-cell bookkeeping. Trusted: ' + TB,
         technique='MIR path-table extraction (custom rustc_private driver) + finite-model comparison with the specification table',
         ref='§4 C03'),
+    'C12': dict(
+        level='other',
+        text='Over the call-graph cone of the specification parsers (%grmtools section, Yacc, lex): (1) every natural loop of '
+             'the hand-written scanners has termination evidence - std-iterator driven, work list guarded by set insertion, or a '
+             'usize cursor shown strictly greater at the end of EVERY cycle header->header (cycles enumerated symbolically, inner '
+             'loops widened under a monotonicity check, helper functions evaluated on their return paths with actual arguments, '
+             'regex literals analysed for minimum match width, recursion handled by greatest-fixpoint hypotheses); (2) no '
+             'unwrap/expect consumes an input-dependent fallible producer; (3) no call-graph cycle (input-depth recursion).',
+        note='Decides "never hangs in a scanner loop", "no panic from unwrapping an input-dependent failure" and "no unbounded '
+             'recursion"; does NOT decide absence of slicing/index panics in general nor that spans lie on char boundaries. '
+             '4 facts are trusted with reasons (rules/progress.py TRUSTED_FN/TRUSTED_POS) and reported in the evidence notes when used. '
+             'One known finding (array nesting recursion). Trusted: ' + TB,
+        technique='per-loop cursor-progress analysis on MIR (symbolic cycle enumeration + interprocedural return-path evaluation), deny-list value-flow for unwrap, call-graph SCCs',
+        ref='§4 C12, §3 A6'),
     'C15': dict(
         level='other',
         text='Every call that starts iterating a std HashMap/HashSet whose hasher type parameter is RandomState (read from '
